@@ -107,8 +107,6 @@ class Reference:
             D = np.array(ph.get_dynamical_matrix_at_q(qpt))
             f, v = ph.get_frequencies_with_eigenvectors(qpt)
             f2 = ph.get_frequencies(qpt)
-            if ph._group_velocity is None:
-                ph._set_group_velocity()
             g = np.array(ph.get_group_velocity_at_q(qpt))
             self.cache[k] = dict(D=D, f=np.array(f), v=np.array(v), f2=np.array(f2), g=g)
         return self.cache[k]
@@ -429,26 +427,35 @@ def gamma_and_writers(run, rng, thorough, lines, expect):
                 dmo.run(G, q_direction=d)
                 cand[lab] = np.linalg.eigvalsh(np.array(dmo.dynamical_matrix))
             distinct = not _close(cand["none"], cand["user"]) and not _close(cand["user"], cand["segment"]) and not _close(cand["none"], cand["segment"])
-            if ph._group_velocity is None:
-                ph._set_group_velocity()
-            gvo = ph._group_velocity
+            # a group-velocity calculator built through the public class (no private attribute of Phonopy is needed);
+            # it must reproduce Phonopy.get_group_velocity_at_q, otherwise the refinement is skipped and counted
+            from phonopy.phonon.group_velocity import GroupVelocity
             hs = np.array([0.0, 0.0, 0.25])   # on the hexagonal axis: degenerate bands, site-symmetry average matters
-            gcand = {}
-            for lab, d in (("none", None), ("user", user)):
-                gvo.run([G, hs], perturbation=d)
-                gcand[lab] = np.array(gvo.group_velocities)
+            gcand = None
+            try:
+                gvo = GroupVelocity(dmo, symmetry=ph.primitive_symmetry, frequency_factor_to_THz=fac)
+                gcand = {}
+                for lab, d in (("none", None), ("user", user)):
+                    gvo.run([G, hs], perturbation=d)
+                    gcand[lab] = np.array(gvo.group_velocities)
+                pub = np.array([ph.get_group_velocity_at_q(G), ph.get_group_velocity_at_q(hs)])
+                if not _close(gcand["none"], pub, scale=max(1.0, float(np.abs(pub).max()))):
+                    gcand = None
+            except Exception:
+                gcand = None
+            if gcand is None:
+                run.count("intermediate hook unavailable: public GroupVelocity object equivalent to Phonopy's", section="correspondence")
             info0 = dict(cell="wurtzite", nac=method, build=build)
             obs = []
             for u in (False, True):
                 ph.run_qpoints([G, hs], with_group_velocities=True, nac_q_direction=user if u else None)
                 dq = ph.get_qpoints_dict()
-                obs.append(("qpoints", u, False, _lam(dq["frequencies"][0], fac), np.array(dq["group_velocities"])))
+                obs.append(("qpoints", u, False, _lam(dq["frequencies"][0], fac), np.array(dq["group_velocities"]) if gcand is not None else None))
                 dmo.run(G, q_direction=user if u else None)
                 obs.append(("direct", u, False, np.linalg.eigvalsh(np.array(dmo.dynamical_matrix)), None))
             ph.run_band_structure([seg], with_group_velocities=True)
             db = ph.get_band_structure_dict()
-            gvo.run([G])
-            g_none_G = np.array(gvo.group_velocities)[0]
+            g_none_G = np.array(ph.get_group_velocity_at_q(G))
             obs.append(("band", False, True, _lam(db["frequencies"][0][-1], fac), ("G-only", np.array(db["group_velocities"][0][-1]), g_none_G)))
             ph.run_mesh([3, 3, 3], is_gamma_center=True, with_group_velocities=True)
             md = ph.get_mesh_dict()
@@ -624,16 +631,16 @@ def batched_vs_single(run, rng, thorough):
     switch_build("omp")
     for method in ("gonze", "wang"):
         ph = build_nac_phonon(rng.choice(["wurtzite", "nacl_prim", "zincblende_prim"]), [2, 1, 1], method)
-        qs = np.array([[rng.randint(-8, 8) / 16.0 for _ in range(3)] for _ in range(24 if thorough else 16)] + [[0, 0, 0]])
-        set_threads(8)
+        qs = np.array([[rng.randint(-8, 8) / 16.0 for _ in range(3)] for _ in range(96 if thorough else 64)] + [[0, 0, 0]])
         first = None
-        for rep in range(4 if thorough else 3):
+        for rep in range(10 if thorough else 6):
+            set_threads(16 if rep % 2 == 0 else 8)
             ph.run_qpoints(qs, with_dynamical_matrices=True)
             dms = np.array(ph.get_qpoints_dict()["dynamical_matrices"])
             if first is None:
                 first = dms
             elif not np.array_equal(first, dms):
-                run.violation("Phonopy.run_qpoints", "batch-not-reproducible", "the same batched run_qpoints call gives different dynamical matrices on repetition (8 OpenMP threads, NAC %s)" % method,
+                run.violation("Phonopy.run_qpoints", "batch-not-reproducible", "the same batched run_qpoints call gives different dynamical matrices on repetition (8/16 OpenMP threads, NAC %s)" % method,
                               dict(nac=method, qpoints=qs.tolist(), max_diff=float(np.abs(first - dms).max())))
         set_threads(1)
         for i, q in enumerate(qs):
